@@ -92,6 +92,27 @@ Theorem C07_in_range :
 Proof. exact in_range. Qed.
 Print Assumptions C07_in_range.
 
+(* Every request goes to the right cluster.  The module has a name of its own and a configured cluster (two different
+   strings in general); whatever the bytes, every request sent - offset update, owner update, owner clear, group
+   delete - names the configured cluster, and is otherwise the request of process_message (so all the statements above
+   carry over to the addressed requests). *)
+Theorem C07_requests_addressed_to_cluster :
+  forall cfg (accept : list Z -> bool) key value o rs al,
+    process_message_for cfg accept key value o = DoneFor rs al ->
+    Forall (fun cr => fst cr = rc_cluster cfg) rs /\
+    process_message accept key value o = Done (map snd rs) al.
+Proof. exact requests_addressed_to_cluster. Qed.
+Print Assumptions C07_requests_addressed_to_cluster.
+
+(* in particular: a metadata tombstone deletes the group in the module's cluster *)
+Theorem C07_metadata_tombstone_for :
+  forall cfg (accept : list Z -> bool) g o,
+    str_ok g -> accept (str_val g) = true ->
+    exists al, process_message_for cfg accept (enc_meta_key g) [] o
+               = DoneFor [(rc_cluster cfg, DeleteGroup (str_val g))] al.
+Proof. exact metadata_tombstone_for. Qed.
+Print Assumptions C07_metadata_tombstone_for.
+
 (* ---- the specification of well-formed agrees with the unit tests' literals (WireEnc.v) ---- *)
 
 Example C07_anchor_offset_key_v1 :
@@ -159,4 +180,10 @@ Example C07_ex_repeated_topic_later_wins :
     (enc_meta_value 1 (mkMV b_consumer 1 None None 0
        [mkWM b_cid1 None b_cid1 b_host1 0 0 None (Asg (mkAsg 0 [(b_t1, [0]); (b_t1, [1])] None))])) 0
   = Done [SetConsumerOwner (str_val b_g) (str_val b_t1) 1 (str_val b_host1) (str_val b_cid1)] [1; 8; 2; 2; 9; 96; 2; 4; 2; 4].
+Proof. vm_compute. reflexivity. Qed.
+
+(* a module called "c1" reading for cluster "t1": the tombstone goes to "t1" *)
+Example C07_ex_tombstone_cluster :
+  process_message_for (mkReaderCfg (str_val b_cid1) (str_val b_t1)) (fun _ => true) (enc_meta_key b_g) [] 0
+  = DoneFor [(str_val b_t1, DeleteGroup (str_val b_g))] [1].
 Proof. vm_compute. reflexivity. Qed.
